@@ -9,6 +9,8 @@ import GluonModel.Spec.Rfc822Spec
 -- DIALECT: fetch-partial R8.runPartial
 -- DIALECT: fetch-sect R8.runFetchSect
 -- DIALECT: fetch-rel R8.runFetchRel
+-- DIALECT: fetch-partial-raw R8.runPartial
+-- DIALECT: fetch-sect-raw R8.runFetchSect
 -- DIALECT: judge-c13-hdr R8.judgeC13Hdr
 -- DIALECT: judge-c13-sect R8.judgeC13Sect
 -- DIALECT: judge-c13-splice R8.judgeC13Splice
@@ -182,7 +184,7 @@ def specHeaderOf (l : Bytes) : Bytes :=
   go (Spec.lines l) []
 
 /-- does the header contain a field whose first line is `name:` directly followed by the line break and
-    which is followed by another line that is not a continuation (the shape of finding #15)? -/
+    which is followed by another line that is not a continuation (the shape of the repaired finding #15, kept as a regression label)? -/
 def hasEmptyValuedField (h : Bytes) : Bool :=
   let rec go : List Bytes → Bool
     | l :: next :: rest =>
@@ -194,6 +196,17 @@ def hasEmptyValuedField (h : Bytes) : Bool :=
 /-- some field's value starts with `:` directly after the colon (`Key::…`, finding d25) -/
 def hasDoubleColonField (h : Bytes) : Bool :=
   (Spec.lines h).any fun l => Spec.isField l && (l.drop ((Spec.fieldName l).length + 1)).head? == some 58
+
+def stripEol (l : Bytes) : Bytes := (l.reverse.dropWhile (fun c => c == 10 || c == 13)).reverse
+
+/-- shape of the literal behind a "part bytes differ" verdict: a delimiter line with trailing white
+    space (RFC 2046 transport padding, d27), else a message without any closing delimiter line (d26) -/
+def partShape (l : Bytes) : String :=
+  let ls := (Spec.lines l).map stripEol
+  let isDelim := fun (x : Bytes) => x.take 2 == [45, 45] && x.length > 2
+  if ls.any (fun x => isDelim x && (x.getLast? == some 32 || x.getLast? == some 9)) then "-delimiter-transport-padding"
+  else if !(ls.any (fun x => isDelim x && x.length > 4 && x.reverse.take 2 == [45, 45])) then "-unterminated-multipart"
+  else ""
 
 def containsSub (pat l : Bytes) : Bool := (indexOf pat l).isSome
 
@@ -251,7 +264,7 @@ def judgeC13Sect (args : List String) : String :=
         else if bb != slice l b e then "violation body-not-a-slice"
         else if hh ++ bb != slice l h e then "violation header-body-not-literal"
         else if path == "-" && !(h == 0 && e == l.length) then "violation root-is-not-whole-literal"
-        else if expect != "?" && hh ++ bb != unhex expect then "violation part-bytes-differ-from-construction"
+        else if expect != "?" && hh ++ bb != unhex expect then "violation part-bytes-differ-from-construction" ++ partShape l
         else if expect != "?" && path != "-" then "ok nontrivial-part" else if path == "-" then "ok nontrivial-root" else "ok trivial"
       | _, _, _, _, _ => "violation unparsable-implementation-output"
     | _ => "violation unparsable-implementation-output"
@@ -358,7 +371,9 @@ def judgeC13Fetch (args : List String) : String :=
           if path == "-" && (kind == "FIELDS" || kind == "FIELDS.NOT") && !((cttab.splitOn ":r").length > 1)
               && Spec.wellFormed h
               && fd != Spec.selectFields (kind == "FIELDS.NOT") ((unhexList names).map lowerBytes) h then
-            (if hasEmptyValuedField h then "violation header-fields-not-exact-empty-valued-field" else "violation header-fields-not-exact")
+            (if hasDoubleColonField h then "violation header-fields-not-exact-value-starts-with-colon"
+             else if hasEmptyValuedField h then "violation header-fields-not-exact-empty-valued-field"
+             else "violation header-fields-not-exact")
           else
           match parsePartial b c with
           | none => if pd == fd then "ok nontrivial-whole" else "violation nondeterministic"
@@ -405,7 +420,7 @@ def judgeC13Rel (args : List String) : String :=
     else
       match get "A", get "H", get "T", get "M" with
       | some (.ok a), some (.ok h), some (.ok t), some (.ok m) =>
-        if expect != "?" && m ++ a != unhex expect then "violation part-bytes-differ-from-construction"
+        if expect != "?" && m ++ a != unhex expect then "violation part-bytes-differ-from-construction" ++ partShape l
         else if !(h ++ t == a || (h == m && t == a)) then "violation header-text-not-part"
         else if expect != "?" then "ok nontrivial-part" else "ok trivial-unknown-part"
       | some (.error _), some (.error _), some (.error _), some (.error _) =>
